@@ -90,7 +90,6 @@ def g2_task(envr, item):
 
     def body(c):
         s, info = shapes.build_ansistring(c, shape, 'a')
-        info['text'].escfree = True
         if kind.startswith('slice'):
             st = c.named_int('st') if kind[5] == '1' else None
             en = c.named_int('en') if kind[6] == '1' else None
@@ -346,3 +345,47 @@ GROUPS.append(Group('A1', '__iadd__: text concatenated, each operand keeps its p
                     bounds='two operand tables with N<=2(3)/3 change points and <=2 objects each, setting objects shared '
                     'between the operands or not, value is self, str, AnsiStr, wrong type; keys and lengths symbolic',
                     assumes=['P4']))
+
+
+# ============================================================================================= G2e
+# __getitem__ on texts that contain ESC / '[' / 'm': concrete length, symbolic characters over the
+# character classes the tokenizer distinguishes.  No "text without ESC" precondition here.
+ESC_ALPHABET = (27, 91, 109, 49, 120)  # ESC  [  m  1  x
+
+
+def g2e_items(tier):
+    L = 3 if tier == 'quick' else 5
+    out = []
+    for n in range(0, L + 1):
+        for st in range(0, n + 1):
+            for en in range(st, n + 1):
+                if tier == 'quick' or n <= 3 or (st, en) in ((0, n), (1, n), (2, n), (0, n - 1)):
+                    out.append([n, st, en])
+    return out
+
+
+def g2e_task(envr, item):
+    n, st, en = item
+
+    def body(c):
+        cps = []
+        for i in range(n):
+            cp = c.named_int('c%d' % i)
+            c.assume(b_or(*[i_cmp('==', cp, a) for a in ESC_ALPHABET]))
+            cps.append(cp)
+        text = sym.s_from_chars(cps)
+        s = PObj('AnsiString', {'_fmts': PDict(), '_s': text})
+        if n > 0:
+            x = opaque_setting(c, 'Sx')
+            s.attrs['_fmts'] = PDict([(0, PObj('_AnsiSettingPoint', {'add': PList([x]), 'rem': PList()})),
+                                      (n, PObj('_AnsiSettingPoint', {'add': PList(), 'rem': PList([x])}))])
+        run_contract(envr, c, 'AnsiString.__getitem__', s, [PSlice(st, en, None)], {}, CL_G2, raises=RAISES_G2,
+                     frame=('self',), fresh=True)
+    return ContractRun(body, CL_G2, raises=RAISES_G2, frame=('self',), fresh=True)
+
+
+GROUPS.append(Group('G2e', '__getitem__ on texts containing ESC, [ and m (no re-interpretation of the selected text)',
+                    ['C04'], 'B', ['AnsiString.__getitem__', 'AnsiString.set_ansi_str',
+                                   'ParsedAnsiControlSequenceString.__init__'], g2e_items, g2e_task,
+                    bounds='text length L<=3/5 over the characters ESC [ m 1 x (symbolic), one setting over the whole '
+                    'text, all concrete (start, stop) pairs'))
